@@ -189,20 +189,26 @@ def field (fs : List (String × String)) (k : String) : String :=
   | some p => p.2
   | none => ""
 
+/-- the block gas limit every EVM is built with (`get_evm(.., None, ..)`: `u64::MAX`), transactions and simulations
+alike (GASLIMIT is not among the reads C17 excludes) -/
+def blockGasLimit : String := "18446744073709551615"
+
 /-- Environment of a committing run: block number = the height being built, the supplied timestamp, the block hash
 as randomness, zero fees, the Bitcoin txid supplied with that transaction. -/
 def envOk (fs : List (String × String)) (bn ts : Nat) (hash : String) (txid : Option String) : Bool :=
   field fs "number" == toString bn && field fs "ts" == toString ts && field fs "prevrandao" == hash &&
   field fs "basefee" == "0" && field fs "gasprice" == "0" && field fs "value" == "0" &&
   field fs "coinbase" == "0000000000000000000000000000000000000000" &&
-  (match txid with | some t => field fs "txid" == t | none => true)
+  (match txid with | some t => field fs "txid" == t | none => true) &&
+  field fs "blockgaslimit" == blockGasLimit
 
 /-- Environment of a simulation (`eth_call`, `eth_estimateGas`, `brc20_balance`) made without an explicit block:
 the height that the next transaction will be built at, the caller's account nonce, the same zero fees. -/
 def simEnvOk (n : Node) (fs : List (String × String)) : Bool :=
   field fs "number" == toString n.nextHeight && field fs "nonce" == toString (n.accountNonce (field fs "caller")) &&
   field fs "basefee" == "0" && field fs "gasprice" == "0" && field fs "value" == "0" &&
-  field fs "coinbase" == "0000000000000000000000000000000000000000"
+  field fs "coinbase" == "0000000000000000000000000000000000000000" &&
+  field fs "blockgaslimit" == blockGasLimit
 
 def simRuns (evs : List Ev) : List (List (String × String)) :=
   evs.filterMap (fun e => match e with
